@@ -22,6 +22,7 @@ type FullGen struct {
 	NoList   bool
 	NoSubstr bool
 	Family   string
+	RefBias  int // extra chance that an operand is an alias reference
 }
 
 func (g *FullGen) pick(xs []string) string { return xs[g.R.Intn(len(xs))] }
@@ -70,7 +71,7 @@ var seps = []string{",", "-", ":", "|", "ab"}
 // operand of a binary operator or a call argument (aliases allowed there).
 func (g *FullGen) S(d int, asOperand bool) *Node {
 	r := g.R
-	if asOperand && r.Chance(1, 5) {
+	if asOperand && r.Chance(1+g.RefBias, 6) {
 		if x := g.refOf(TS); x != nil {
 			return x
 		}
@@ -140,7 +141,7 @@ func (g *FullGen) fltLit() *Node { return Float(floatLits[g.R.Intn(len(floatLits
 
 func (g *FullGen) N(d int, asOperand bool) *Node {
 	r := g.R
-	if asOperand && r.Chance(1, 5) {
+	if asOperand && r.Chance(1+g.RefBias, 6) {
 		if x := g.refOf(TN); x != nil {
 			return x
 		}
@@ -219,7 +220,7 @@ func (g *FullGen) numList(k int) *Node {
 
 func (g *FullGen) L(d int, asOperand bool) *Node {
 	r := g.R
-	if asOperand && r.Chance(1, 4) {
+	if asOperand && r.Chance(1+g.RefBias, 5) {
 		if x := g.refOf(TL); x != nil {
 			return x
 		}
@@ -232,7 +233,7 @@ func (g *FullGen) L(d int, asOperand bool) *Node {
 
 func (g *FullGen) B(d int, asOperand bool) *Node {
 	r := g.R
-	if asOperand && r.Chance(1, 6) {
+	if asOperand && r.Chance(1+g.RefBias, 7) {
 		if x := g.refOf(TB); x != nil {
 			return x
 		}
